@@ -132,10 +132,15 @@ def holds (i : Input) (o : Output) : Bool := (clauses i o).all (·.2)
 /-- Domain of the quantifier: the CIDs are in the universe; the daemon does not
 lie (it says "not pinned" to `pin/rm` only for a CID it does not hold); and the
 pin is not self-contradictory (`Mode` recursive with `MaxDepth` 0 — no
-constructor of `api.Pin` produces it) when it has an update source. -/
+constructor of `api.Pin` produces it) when it has an update source; nor is a depth-0 pin with an
+update source looked up at a daemon that lists pins whatever `type=` filter was asked (go-ipfs
+honours the filter; see `filter_ignoring_source_breaks_direct_update` in Props). -/
 def wf (i : Input) : Bool :=
   i.cid < i.n &&
-  (match i.src with | some s => s < i.n && !(i.modeRec && i.depth == 0) | none => true) &&
+  (match i.src with
+   | some s => s < i.n && !(i.modeRec && i.depth == 0) &&
+       !(i.op == .pin && i.depth == 0 && clsFirst (i.beh 1) == .honestAny)
+   | none => true) &&
   !(i.op == .unpin && clsAt false (i.beh 0) == .notPinned && held (i.table i.cid))
 
 end CV.C16
